@@ -184,7 +184,7 @@ class LinearReconstructEveryK(TimeStepFilter):
                 rolled,
                 time_indices,
             )
-            time_indices = time_indices.at[: self.k].set(0)
+            time_indices = time_indices.at[:1].set(0)
         self = self.aset("_time_to_arr_idx", time_indices, create_new_ok=True)
         return self, self._array_size, input_shape_dtypes, {}
 
